@@ -93,7 +93,7 @@ def run_tlc(module, cfg, workers=None, simulate=None, depth=None, seed=None, tim
     meta = os.path.join(OUT, "tlc", "meta_" + tag)
     shutil.rmtree(meta, ignore_errors=True)
     outp = outfile or os.path.join(OUT, "tlc", tag + ".out")
-    cmd = ["java", "-XX:+UseParallelGC", "-Xmx" + heap, "-cp", TLC_CP, "tlc2.TLC",
+    cmd = ["java", "-XX:+UseParallelGC", "-Xss1g", "-Xmx" + heap, "-cp", TLC_CP, "tlc2.TLC",
            "-metadir", meta, "-config", cfg, "-workers", str(workers or 1)]
     if simulate:
         cmd += ["-simulate", "num=%d" % simulate]
@@ -391,6 +391,9 @@ def compare(behs, results, observe, ordered=True, nsetup_events=0, safety_only=F
                 break
             stats["steps"] += 1
             px = st.get("x", [])
+            if any(p and p[0] == "resume" for p in px):
+                suspended = False
+                continue
             if suspended:
                 continue
             if any(p and p[0] == "stop" for p in px):
@@ -403,6 +406,11 @@ def compare(behs, results, observe, ordered=True, nsetup_events=0, safety_only=F
             o = [it for it in obs[si] if observe(it)]
             if px:
                 stats["nonempty_pred"] += 1
+            opt = [[p[0][:-1]] + list(p[1:]) + ["*"] for p in px if p and isinstance(p[0], str) and p[0].endswith("?")]
+            if opt:
+                # optional predictions (kind?): an observed item they cover is accepted, none is required
+                o = [it for it in o if not any(item_match(q, it) for q in opt)]
+                px = [p for p in px if not (p and isinstance(p[0], str) and p[0].endswith("?"))]
             if not match_lists(px, o, ordered):
                 bad = Mismatch(bi, si, "mismatch", px, o, st["e"])
                 break
